@@ -369,6 +369,11 @@ func tsMenu(r *rng, root reflect.Type) (map[reflect.Type]*js.Schema, []reflect.T
 		var s *js.Schema
 		if isStd(t) {
 			s = pick(r, []*js.Schema{{Type: "string", Format: "date-time"}, {Type: "integer"}, nil})
+			if s == nil && t.Kind() != reflect.Struct {
+				// (the model knows a marshaler type only as an opaque struct: slog.Level without its
+				// entry is an integer kind, outside the model's alphabet)
+				s = &js.Schema{Type: "string"}
+			}
 			if s == nil || s.Type != "string" {
 				faithful = false // (a nil entry hides the default schema of the standard type)
 			}
